@@ -221,6 +221,8 @@ def instance(s: dict, comps: dict, tok: Tok, mode: str = "rand", depth: int = 0,
             if not members:
                 return None
             m = members[0] if (mode == "min" or deep) else rng.choice(members)
+            if force and force.get("branch") is not None:
+                m = members[force["branch"] % len(members)]  # systematic branch coverage (the caller counts)
             v = instance(m, comps, tok, mode, depth + 1)
             _flag_union_ambiguity(members, m, v, comps, tok, k)
             return v
@@ -285,6 +287,13 @@ def _flag_union_ambiguity(members: list, chosen: dict, v, comps: dict, tok: Tok,
                 # the earlier member does not admit the value (closed / typed additional properties, ill-typed
                 # property) but its decoder does not validate and will take it
                 tok.flags.add("union_model_shadowed")
+    if isinstance(v, list):
+        def _arr(m_):
+            t_ = resolve(m_, comps).get("type")
+            return t_ == "array" or (isinstance(t_, list) and "array" in t_)
+        if sum(1 for m_ in members if _arr(m_)) >= 2:
+            # the encoder dispatches on isinstance(x, list): it cannot tell two array members apart
+            tok.flags.add("union_two_array_members")
     for m in members:
         rm = resolve(m, comps)
         if m is not chosen and rm == {}:
@@ -1367,6 +1376,39 @@ def interplay_docs() -> list[tuple[str, dict]]:
         mk(f"tag_{tag}", schemas={"M": {"type": "object", "properties": {"a": {"type": "string"}}}},
            paths={"/t": {"get": {"operationId": "get_t", "tags": [tag], "responses": {"200": {"description": "ok", "content": {"application/json": {"schema": R("M")}}}}}},
                   "/u": {"get": {"operationId": tag, "tags": ["ops"], "responses": ok}}, "/v": {"get": {"operationId": tag, "tags": [tag], "responses": ok}}})
+    return out
+
+
+def union_io_docs() -> list[tuple[str, dict]]:
+    """Operations whose JSON response / JSON request body / query parameter is a union: every ordered pair (and a few
+    triples) of member kinds that first-match decoding can tell apart, under oneOf and anyOf, with and without null.
+    The `ops` planner walks the calls of one operation through the members in turn (response_plan branch=...)."""
+    R = lambda n: {"$ref": f"#/components/schemas/{n}"}  # noqa: E731
+    out = []
+    kinds = {"ma": R("Ua"), "mb": R("Ub"), "lm": {"type": "array", "items": R("Ua")}, "ls": {"type": "array", "items": {"type": "string"}}, "dt": {"type": "string", "format": "date-time"}, "i": {"type": "integer"},
+             "b": {"type": "boolean"}, "e": R("Ue"), "u": {"type": "string", "format": "uuid"}, "ie": R("Uie")}
+    # pairs first-match decoding separates by runtime type or by a required key (others are the listed first-match findings)
+    combos = [("ma", "lm"), ("lm", "ma"), ("ma", "i"), ("i", "ma"), ("ma", "mb"), ("mb", "ma"), ("lm", "ls"), ("ls", "i"), ("dt", "i"), ("i", "b"), ("e", "i"), ("ie", "ma"), ("u", "lm"), ("ma", "lm", "i"), ("lm", "e", "mb"), ("i", "ls", "ma"), ("dt", "ma", "b")]
+    for version in ("3.0.3", "3.1.0"):
+        for kw in ("oneOf", "anyOf"):
+            d = base_doc(version, f"Union IO {kw}")
+            d["components"]["schemas"] = {"Ua": {"type": "object", "required": ["a"], "properties": {"a": {"type": "string"}, "n": {"type": "integer"}}, "additionalProperties": False},
+                                          "Ub": {"type": "object", "required": ["b"], "properties": {"b": {"type": "integer"}, "when": {"type": "string", "format": "date"}}, "additionalProperties": False},
+                                          "Ue": {"type": "string", "enum": ["x", "y"]}, "Uie": {"type": "integer", "enum": [10, 20]}}
+            d["paths"] = {}
+            for ci, combo in enumerate(combos):
+                for nul in (False, True):
+                    members = [clone(kinds[k]) for k in combo]
+                    sch = {kw: members + ([{"type": "null"}] if nul and version.startswith("3.1") else [])}
+                    if nul and not version.startswith("3.1"):
+                        sch["nullable"] = True
+                    name = "_".join(combo) + ("_null" if nul else "")
+                    op = {"operationId": f"u_{name}", "responses": {"200": {"description": "ok", "content": {"application/json": {"schema": sch}}}, "404": {"description": "no", "content": {"application/json": {"schema": R("Ub")}}}}}
+                    op["requestBody"] = {"required": True, "content": {"application/json": {"schema": clone(sch)}}}
+                    if all(k in ("i", "b", "e", "dt", "u", "ie") for k in combo):
+                        op["parameters"] = [{"name": "q", "in": "query", "schema": clone(sch)}]
+                    d["paths"][f"/u/{ci}{'n' if nul else ''}"] = {"post": op}
+            out.append((f"union_io:{kw}:{version}", d))
     return out
 
 
